@@ -8,7 +8,7 @@
 import sys
 from vlib import runner, refs, nf, asmgen, x86space
 from checks.c02_asm import collect, call_asm, mn_class, shape_str
-from checks.c01_decode import split_prefixes, row_key, lock_ok
+from checks.c01_decode import split_prefixes, row_key, lock_ok, pnorm, dropped_prefix
 
 
 def asm_intel(line):
@@ -48,8 +48,9 @@ def roundtrip(b):
     r = asm_intel(txt)
     if isinstance(r, tuple):
         return ("reasm-raises:" + r[0], "%s renders as %r, which asm() rejects (%s: %s)" % (b.hex(), " ".join(txt.split()), r[0], r[1]))
-    if b not in r:
-        return ("reasm-missing", "%s renders as %r; asm() of that gives %s" % (b.hex(), " ".join(txt.split()), [x.hex() for x in r[:5]]))
+    if b not in r and pnorm(b) not in [pnorm(x) for x in r]:        # (the order of prefix bytes is not part of the instruction)
+        dp = dropped_prefix(b, r)
+        return (("reasm-missing" + (":prefix-%s-dropped" % dp if dp else "")) if r else "reasm-empty", "%s renders as %r; asm() of that gives %s" % (b.hex(), " ".join(txt.split()), [x.hex() for x in r[:5]]))
     return None
 
 
@@ -74,7 +75,16 @@ def w_text(run, st_, k, n):
                         st_.sample({"line": line, "candidate": idx, "bytes": b.hex()})
                 else:
                     ft = spec_features(sp)
-                    sig = runner.norm_sig(("a", v[0], ft) if (ft and "raises" not in v[0]) else (("a", v[0]) if "raises" in v[0] else ("a", v[0], mn_class(sp["mn"]), shape_str(sp))))
+                    # a feature bucket alone (segment override, absolute address) is too coarse to list: it would hide any new defect that involves
+                    # the same feature; the mnemonic class and operand shape are part of the signature
+                    if "-dropped" in v[0]:
+                        # the mechanism is the signature: the same bytes minus one prefix come back.  (push WORD PTR [mem] is assembled as an
+                        # immediate push - listed under C02 - on which the segment prefix means nothing: its own class)
+                        sig = runner.norm_sig(("a", v[0], "push-m16" if (sp["mn"] == "push" and shape_str(sp) == "m16") else "*"))
+                    elif "raises" in v[0]:
+                        sig = runner.norm_sig(("a", v[0]))
+                    else:
+                        sig = runner.norm_sig(("a", v[0], mn_class(sp["mn"]), shape_str(sp)))
                     if not any(f[0] == sig for f in st_.failures):
                         st_.fail(sig, "%s %r candidate #%d: %s" % ("asm_att" if att else "asm", line, idx, v[1]), {"a": b.hex()})
 
@@ -153,10 +163,12 @@ def w_bytes(run, st_, k, chunk):
             rk = row_key(b, l)
             nref = nf.parse(ti, 0, l)
             ft = nf_features(nref)
-            if "raises" in v[0]:
+            if "raises" in v[0] or "-dropped" in v[0]:
                 sig = runner.norm_sig(("b", v[0]))
+            elif "16-bit-addressing" in ft:
+                sig = runner.norm_sig(("b", v[0], ft))          # the assembler has no 16-bit addressing at all: one root cause, nothing in it can regress
             elif ft:
-                sig = runner.norm_sig(("b", v[0], ft))
+                sig = runner.norm_sig(("b", v[0], ft, rk[0], rk[1], nref.mn))
             else:
                 sig = runner.norm_sig(("b", v[0], rk[0], rk[1], nref.mn))
             if not any(f[0] == sig for f in st_.failures):
